@@ -167,12 +167,15 @@ RetIdeal(j, p, r) ==
    panics on a negative or out-of-range float.  Negative multiplier: as soon as the backoff is
    positive (first retry when initial > 0; "-inf" with initial = 0 turns the backoff into max
    via NaN first, so the second retry).  max_backoff at the top of u64 (u64::MAX s rounds to 2^64
-   as f64): as soon as backoff * multiplier reaches it or is NaN. *)
+   as f64, which from_secs_f64 rejects): as soon as backoff * multiplier reaches it or is NaN
+   (f64::min returns the other operand for NaN). *)
 DevF14b(j, p, r) ==
   /\ "F14b" \in KnownDeviations /\ r.kind = "panic" /\ RetryDue(j, p)
   /\ \/ NegMult(p.mult) /\ p.init > 0 /\ j.n = 1
      \/ p.mult = "-inf" /\ p.init = 0 /\ p.maxb > 0 /\ j.n = 2
-     \/ p.maxb >= SAT /\ j.n = 1 /\ (p.mult \in {"inf", "nan"} \/ (p.mult = "1e308" /\ p.init > 0))
+     \/ p.maxb >= SAT /\ j.n = 1 /\ \/ p.mult \in {"inf", "nan"}
+                                    \/ p.mult = "1e308" /\ p.init > 0
+                                    \/ p.mult = "-inf" /\ p.init = 0        \* 0 * -inf = NaN -> max
 
 (* Dev_F14c: `delay += jitter` overflows Duration when the Retry-After hint is near u64::MAX s. *)
 DevF14c(j, p, r) ==
